@@ -17,8 +17,7 @@ type Session struct {
 	Src   []string // replay lines (JSON ops / queries), index-aligned with Lines where a line has a source
 	SrcAt []int    // Lines index -> Src index
 	Steps []Step
-	// Tainted: addresses whose cache entry a stale watch event already corrupted (known finding); later findings about
-	// them are the same defect
+	// Tainted: addresses for which the history left the environment assumption EnvOK (value "env")
 	Tainted map[uint32]string
 }
 
@@ -32,6 +31,15 @@ func (s *Session) add(line, impl string, src int) {
 
 // Do executes one move and records the move line and a dump line.
 func (s *Session) Do(op Op) Step {
+	if op.Kind == "admres" {
+		// environment assumption of C05 (EnvOK): the administrator does not create a reservation for an address while a
+		// watch event for that address is still on its way; histories which do are marked, not judged
+		for _, e := range s.W.Pending {
+			if e.IP == op.IP {
+				s.Tainted[op.IP] = "env"
+			}
+		}
+	}
 	st := s.W.Exec(op)
 	s.Src = append(s.Src, op.JSON())
 	s.Steps = append(s.Steps, st)
